@@ -54,3 +54,72 @@ contract(
     ],
     returns=TTuple(PyInt, PyInt),
 )
+
+
+# ---------------------------------------------------------------------------------------------------------
+def q_ref(x):
+    """Reference quantisation of a positive finite scale (TFLite QuantizeMultiplier; (0, 16) out of range)."""
+    return (tflite_q31(x), 31 - exp_of(x)) if -32 <= exp_of(x) <= 31 else (0, 16)
+
+
+contract(
+    "ethosu.vela.scaling:reduced_quantise_scale", props=["C09"], variants=FLOAT_VARIANTS,
+    requires=["math.isfinite(scale)", "scale > 0"],
+    ensures=[
+        # representable reduced form: shift - 16 in [0, 47]
+        "implies(-32 <= exp_of(scale) <= 15, result[1] == 15 - exp_of(scale) and 0 <= result[1] <= 47)",
+        "implies(-32 <= exp_of(scale) <= 15, result[0] == min(32767, (tflite_q31(scale) + 2**15) >> 16) and 2**14 <= result[0] <= 32767)",
+        # relative error <= 2**-14:  |red * 2**38 - M| <= 2**38  with M >= 2**52
+        "implies(-32 <= exp_of(scale) <= 15, abs(result[0] * 2**38 - sig53(scale)) <= 2**38)",
+        # otherwise: zero multiplier and a shift that fits the 6-bit field (never negative / wrapped)
+        "implies(not (-32 <= exp_of(scale) <= 15), result[0] == 0 and 0 <= result[1] <= 63)",
+    ],
+    returns=TTuple(PyInt, PyInt),
+)
+
+# ---- average pool divisor ---------------------------------------------------------------------------------
+# exact closed form for every window size and rescale_bits
+contract(
+    "ethosu.vela.scaling:quantise_pooling_scale", props=["C09"],
+    variants=dict(
+        [("closed_form", dict(nr_kernel_elements=TInt(lo=1, hi=65536), rescale_bits=TInt(lo=-31, hi=15), a=PyInt))]
+        # division lemma, one variant per k = bitlen(n - 1): 2**(k-1) < n <= 2**k ; `a` is a ghost accumulator
+        + [("k=%d" % k, dict(nr_kernel_elements=TInt(lo=(1 << (k - 1)) + 1 if k > 0 else 1, hi=1 << k), rescale_bits=TConst(0), a=PyInt))
+           for k in range(0, 17)]
+    ),
+    max_shift=80,
+    # the function's own assert, as the precondition (call sites: rescale_bits < 0 only for 1x1 kernels)
+    requires=["(31 - rescale_bits) + bitlen(nr_kernel_elements - 1) < 64"],
+    ensures=[
+        "result[1] == (31 - rescale_bits) + bitlen(nr_kernel_elements - 1)",
+        "result[0] == (2**result[1] + 2**bitlen(nr_kernel_elements - 1)) // nr_kernel_elements",
+        "0 <= result[1] < 64",
+        # the pair divides exactly (round-half-up) for every accumulator below 2**30
+        "implies(rescale_bits == 0 and 0 <= a < 2**30, (a * result[0] + 2**(result[1] - 1)) >> result[1] == (2 * a + nr_kernel_elements) // (2 * nr_kernel_elements))",
+    ],
+    variant_requires={"closed_form": ["a == 0"]},
+    returns=TTuple(PyInt, PyInt),
+    assumptions=["negative accumulators: the hardware applies the same rounding to the magnitude (symmetric), not modelled"],
+)
+
+
+# ---- D2 (known finding): the literal claim "for every accumulator a 16-bit window can produce" is false for
+# accumulators >= 2**30; z3 leaves the nonlinear obligation over a <= 32767*n undecided, so the fixed witness is
+# re-evaluated natively on every run (bounded stand-in, never counted as proved).
+def _d2_witness(tier, seed):
+    from ethosu.vela.scaling import quantise_pooling_scale
+    n, a = 135 * 247, 1092598942  # a 135x247 window of int16 values near full scale
+    scale, shift = quantise_pooling_scale(n)
+    got = (a * scale + (1 << (shift - 1))) >> shift
+    want = (2 * a + n) // (2 * n)
+    out = dict(name="quantise_pooling_scale 16-bit window witness", bound="1 fixed input (n=135*247=33345, a=1092598942 <= 32767*n)", cases=1,
+               label="bounded", violations=[], known_lines=[])
+    if got != want:
+        out["known_lines"].append(
+            "KNOWN-FINDING: property=C09 D2 quantise_pooling_scale(135*247): accumulator 1092598942 (>= 2**30, reachable by a 16-bit "
+            "135x247 window) scales to %d, round-half-up division gives %d" % (got, want))
+    return out
+
+
+from pyvc import replay as _rp  # noqa: E402
+_rp.BOUNDED_HOOKS.setdefault("C09", []).append(_d2_witness)
